@@ -548,6 +548,10 @@ class CDSInterval(AbstractFeatureInterval):
             chromosome_end = self.end
         if expand_window_to_partial_codons:
             chromosome_start, chromosome_end = self._expand_coordinates_to_codons(chromosome_start, chromosome_end)
+        # the end of the window may lie beyond the end of the chromosome
+        chromosome_parent = self.chromosome_location.parent
+        if chromosome_parent is not None and chromosome_parent.sequence is not None:
+            chromosome_end = min(chromosome_end, len(chromosome_parent.sequence))
         relative_window = SingleInterval(chromosome_start, chromosome_end, self.strand, self.chromosome_location.parent)
         return relative_window
 
